@@ -4,6 +4,7 @@ import json
 import time
 
 import conc
+import c05
 import crash
 import cryptocheck
 import minthist
@@ -20,7 +21,7 @@ ASSUME = ["SQLite gives per-call atomicity (a crash or a context switch happens 
 def merged(prop, seq_kwargs, scns):
     """Sequential TLC-generated histories + exhaustive interleavings of concurrent scenarios."""
     t0 = time.time()
-    cov1, v1 = minthist.check(prop, collect=True, **seq_kwargs)
+    cov1, v1 = minthist.check(prop, collect=True, with_model=True, **seq_kwargs)
     cov2, v2, _ = conc.check(prop, scns)
     cov = dict(cov1)
     cov["states"] = cov1["states"] + cov2["states"]
@@ -29,7 +30,7 @@ def merged(prop, seq_kwargs, scns):
     cov["evaluations"] = cov1["evaluations"] + cov2["evaluations"]
     cov["distinct_nontrivial"] = cov1["distinct_nontrivial"] + cov2["distinct_nontrivial"]
     cov["samples"] = cov1["samples"] + cov2["samples"]
-    cov["sequential"] = {k: cov1[k] for k in ("events_by_kind", "accepted", "rejected", "generator_constants", "tags_of_other_properties")}
+    cov["sequential"] = {k: cov1[k] for k in ("events_by_kind", "accepted", "rejected", "generator_constants", "tags_of_other_properties", "bounded_model")}
     cov["concurrent"] = {k: cov2[k] for k in ("scenarios", "exhaustive", "rejected_executions", "rejected_signatures", "rule")}
     cov["known_findings_seen"] = cov1["known_findings_seen"] + cov2["known_findings_seen"]
     cov["exhaustive"] = False
@@ -51,10 +52,35 @@ def c01():
     return merged("C01", {}, conc.c01_scenarios())
 
 
+def own_invoice_matrix():
+    """Directed: melt quotes on the mint's own invoices (plain and NUT-15 partial) for every state of the mint quote,
+    followed up as if accepted - melt of the (possibly ghost) quote, then another mint on the target quote."""
+    hs = []
+    for mpp in (True, False):
+        for state in ("UNPAID", "PAID", "ISSUED"):
+            for kind in ("int", "mppint"):
+                ops = [{"op": "mintquote", "amt": 13}, {"op": "settle", "q": "mq1"},
+                       {"op": "mint", "q": "mq1", "outs": [{"amt": 8}, {"amt": 4}, {"amt": 1}]},
+                       {"op": "mintquote", "amt": 5}]
+                if state != "UNPAID":
+                    ops += [{"op": "settle", "q": "mq2"}, {"op": "pollmint", "q": "mq2"}]
+                if state == "ISSUED":
+                    ops += [{"op": "mint", "q": "mq2", "outs": [{"amt": 4}, {"amt": 1}]}]
+                ops += [{"op": "meltquote", "kind": kind, "q": "mq2", "msat": 1000},
+                        {"op": "melt", "q": "lq1", "ins": [{"p": "b1"}] if kind == "int" else [{"p": "b2"}]},
+                        {"op": "pollmint", "q": "mq2"},
+                        {"op": "mint", "q": "mq2", "outs": [{"amt": 4}, {"amt": 1}]},
+                        {"op": "mint", "q": "mq2", "outs": [{"amt": 4}, {"amt": 1}]},
+                        {"op": "balances"}]
+                hs.append({"fee": 0, "mpp": mpp, "policy": "min1", "probe": "all", "ops": ops})
+    return hs
+
+
 @reg("C02")
 def c02():
     # fee-bearing keysets incl. the boundary values named by the property
-    return minthist.check("C02", fees=(0, 1, 100, 999, 1000, 2500), policy="min1", mpp_set=(True, False))
+    return minthist.check("C02", fees=(0, 1, 100, 999, 1000, 2500), policy="min1", mpp_set=(True, False), with_model=True,
+                          num=300 if tier() == "quick" else None, extra_histories=own_invoice_matrix())
 
 
 @reg("C03")
@@ -69,9 +95,8 @@ def c04():
 
 
 @reg("C05")
-def c05():
-    return minthist.check("C05", profile=["mintquote", "settle", "mint", "swap", "meltquote", "melt", "pollmelt", "checkstate", "restart"],
-                          probe="passive")
+def c05_check():
+    return c05.check("C05")
 
 
 @reg("C06")
@@ -121,12 +146,33 @@ def c15():
     return minthist.check("C15")
 
 
+def limit_overshoot():
+    """Directed: overlapping mint quotes, each accepted below the maximum balance, both minted, so that the balance
+    ends strictly above the maximum; then further quotes (must be refused), melts back below the limit and quotes again."""
+    hs = []
+    for maxbal, a, b in ((15, 2, 2), (14, 1, 1), (20, 5, 5), (13, 0, 0)):
+        ops = [{"op": "mintquote", "amt": 13}, {"op": "settle", "q": "mq1"},
+               {"op": "mint", "q": "mq1", "outs": [{"amt": 8}, {"amt": 4}, {"amt": 1}]}, {"op": "balances"}]
+        n = 1
+        for amt in (a, b):
+            if amt:
+                n += 1
+                ops += [{"op": "mintquote", "amt": amt}]
+        for k in range(2, n + 1):
+            ops += [{"op": "settle", "q": "mq%d" % k}, {"op": "mint", "q": "mq%d" % k, "outs": [{"amt": x} for x in ((4, 1) if (a, b)[k - 2] == 5 else (2,) if (a, b)[k - 2] == 2 else (1,))]}]
+        ops += [{"op": "balances"}, {"op": "mintquote", "amt": 1}, {"op": "mintquote", "amt": 2}, {"op": "mintquote", "amt": 8},
+                {"op": "meltquote", "kind": "ext", "amt": 6}, {"op": "melt", "q": "lq1", "ins": [{"p": "b1"}], "pay": ["success"]},
+                {"op": "balances"}, {"op": "mintquote", "amt": 1}, {"op": "mintquote", "amt": 8}, {"op": "balances"}]
+        hs.append({"fee": 0, "mpp": False, "policy": "min1", "probe": "all", "limits": {"maxbal": maxbal, "maxmint": 0, "maxmelt": 0}, "ops": ops})
+    return hs
+
+
 @reg("C16")
 def c16():
     # each limit unset / small / exactly at the boundary of what the funded history reaches (13 minted at start)
     lims = [(0, 0, 0), (13, 0, 0), (14, 0, 0), (16, 5, 0), (21, 0, 3), (0, 3, 5), (30, 13, 8), (12, 8, 2)]
     return minthist.check("C16", limits=lims, profile=["mintquote", "settle", "pollmint", "mint", "swap", "meltquote", "melt", "pollmelt", "restart"],
-                          gen_overrides={"MaxMq": 7, "MaxLq": 4})
+                          gen_overrides={"MaxMq": 7, "MaxLq": 4}, extra_histories=limit_overshoot())
 
 
 @reg("C17")
